@@ -1,2 +1,2 @@
-(* C04 over the BGP session ingress path: the expected observation is the one of engine c04. *)
-let run_case = Eng_c04.run_case
+(* C04 over the BGP session ingress path: as c04bmp (Update::Bulk order: withdrawals first). *)
+let run_case (line : string) : string = Eng_c04bmp.bulk_order (Eng_c04.run_case line)
